@@ -845,6 +845,7 @@ pub fn c12_accept(ctx: &Ctx, rng: &mut Rng, o: &mut Out) {
   o.oracle("c12-perturbation-rejected", true, json!({"cases": cases.len(), "failures": f_pert}));
   o.oracle("c12-fix-substitutes", true, json!({"cases": n_subst, "failures": f_subst}));
   c12_globals(o);
+  c12_fix_witnesses(o);
   c12_rule_with_globals(o);
   c12_globals_generated(ctx, rng, o);
 }
@@ -923,6 +924,48 @@ fn c12_globals(o: &mut Out) {
     }
   }
   o.oracle("c12_globals", true, json!({"cases": cases.len(), "failures": failures}));
+}
+
+/// `c12_fix_witnesses`: accepted rules whose fix uses variables captured in every place a variable can
+/// be captured (the rule's pattern, a `has` sub-rule, a local utility, a `constraints` pattern —
+/// single and `$$$` captures alike) — the replacement text is the documented one, written out here
+/// literally (the reference of `c12-fix-substitutes` reads the implementation's own environment and
+/// cannot see a capture that was lost on the way to it).
+fn c12_fix_witnesses(o: &mut Out) {
+  // (name, rule document, source, expected replacement of the first match)
+  let cases: Vec<(&str, Value, &str, &str)> = vec![
+    ("multi capture of the pattern", json!({"rule": {"pattern": "log($$$ARGS)"}, "fix": "log2($$$ARGS)"}), "log(a, b)", "log2(a, b)"),
+    ("single capture of a constraint pattern", json!({"rule": {"pattern": "log($CALL)"}, "constraints": {"CALL": {"pattern": "format($X)"}}, "fix": "log2($X)"}), "log(format(a))", "log2(a)"),
+    ("multi capture of a constraint pattern", json!({"rule": {"pattern": "log($CALL)"}, "constraints": {"CALL": {"pattern": "format($$$ARGS)"}}, "fix": "log2($$$ARGS)"}), "log(format(a, b))", "log2(a, b)"),
+    ("multi capture of a constraint pattern, object fix", json!({"rule": {"pattern": "log($CALL)"}, "constraints": {"CALL": {"pattern": "format($$$ARGS)"}}, "fix": {"template": "log2($$$ARGS)"}}), "log(format(a, b))", "log2(a, b)"),
+    ("multi capture of a constraint pattern as transform source", json!({"rule": {"pattern": "log($CALL)"}, "constraints": {"CALL": {"pattern": "format($FMT, $$$REST)"}}, "transform": {"UP": {"convert": {"source": "$$$REST", "toCase": "upperCase"}}}, "fix": "log2($FMT, $UP, $$$REST)"}), "log(format(f, x, y))", "log2(f, X, Y, x, y)"),
+    ("multi capture of a has sub-rule", json!({"rule": {"pattern": "log($CALL)", "has": {"pattern": "format($$$ARGS)", "stopBy": "end"}}, "fix": "log2($$$ARGS)"}), "log(format(a, b))", "log2(a, b)"),
+    ("multi capture of a local utility", json!({"utils": {"fmt": {"pattern": "format($$$ARGS)"}}, "rule": {"pattern": "log($CALL)", "has": {"matches": "fmt", "stopBy": "end"}}, "fix": "log2($$$ARGS)"}), "log(format(a, b))", "log2(a, b)"),
+    ("constraint on a multi-capture-free rule, any of two patterns", json!({"rule": {"pattern": "log($CALL)"}, "constraints": {"CALL": {"any": [{"pattern": "fmt($$$ARGS)"}, {"pattern": "format($$$ARGS)"}]}}, "fix": "log2($$$ARGS)"}), "log(format(a, b))", "log2(a, b)"),
+  ];
+  let mut jobs = vec![];
+  for (_, doc, src, _) in &cases {
+    let mut d = doc.clone();
+    d["id"] = json!("w");
+    d["language"] = json!("JavaScript");
+    jobs.push(json!({"k": "api", "role": "rule", "y": d.to_string(), "g": [], "src": [["JavaScript", src]], "fixinfo": src}));
+  }
+  let answers = procpool::run_jobs(&jobs, procpool::nproc());
+  let mut failures = 0usize;
+  for ((name, doc, src, want), ans) in cases.iter().zip(answers.iter()) {
+    let load = ans.detail["load"].as_str().unwrap_or("?");
+    let fi = &ans.detail["fi"];
+    let got = fi["repl"].as_str();
+    if ans.class.crashed() || load != "ok" || got != Some(*want) {
+      failures += 1;
+      o.oracle(
+        "c12-fix-witnesses",
+        false,
+        json!({"fp": format!("c12 fix of an accepted rule: {name}"), "rule": doc, "source": src, "want": want, "got": got, "load": load, "v": ans.detail["v"], "matched": fi["matched"]}),
+      );
+    }
+  }
+  o.oracle("c12-fix-witnesses", true, json!({"cases": cases.len(), "failures": failures}));
 }
 
 /// `c12_rule_with_globals`: a rule file loaded next to the project's GLOBAL utility rules (`utilDirs`).
